@@ -153,18 +153,25 @@ class ReduceNode(Node):
         self,
         state: dict[str, Any],
         load_context: LoadContext,
-        constructor: Type[Any],
+        constructor: Type[Any] | tuple[str, str],
         trusted: Optional[Sequence[str]] = None,
     ) -> None:
         super().__init__(state, load_context, trusted)
         reduce = state["__reduce__"]
+        if isinstance(constructor, tuple):
+            # (module, name) taken from the state: only resolved in _construct,
+            # i.e. after the audit
+            constructor_module, constructor_name = constructor
+        else:
+            constructor_module = get_module(constructor)
+            constructor_name = constructor.__name__
         self.children = {
             "attrs": get_tree(state["content"], load_context, trusted=trusted),
             "args": get_tree(reduce["args"], load_context, trusted=trusted),
             "constructor": TypeNode(
                 {
-                    "__class__": constructor.__name__,
-                    "__module__": get_module(constructor),
+                    "__class__": constructor_name,
+                    "__module__": constructor_module,
                     "__id__": id(constructor),
                 },
                 load_context,
@@ -255,7 +262,7 @@ class LossNode(ReduceNode):
         super().__init__(
             state,
             load_context,
-            constructor=gettype(state["__module__"], state["__class__"]),
+            constructor=(state["__module__"], state["__class__"]),
             trusted=self.trusted,
         )
 
